@@ -4,6 +4,11 @@
 open C16_model
 open Conv
 
+(* every message of a stage of a sequence case is prefixed with the stage *)
+let pfx = ref ""
+let mismatch id m = Conv.mismatch id (!pfx ^ m)
+let propfail id m = Conv.propfail id (!pfx ^ m)
+
 (* tail-recursive helpers: the scale cases have strings of 10^6 bytes and lists of 10^5 .. 10^6 commits *)
 let tmap f l = List.rev (List.rev_map f l)
 let zstr (s : sx) : z list = tmap (fun x -> z_of_int (int_of_sx x)) (list_of_sx s)
@@ -75,6 +80,7 @@ let rotations l =
 let big_limit = 3000       (* above: no quadratic extracted oracle, per-commit loops instead *)
 
 let rec gen_case id c =
+  if field_opt "seq" c <> None then seq_case id c else
   match field_opt "verdict" (field "obs" c) with
   | Some v ->
       (* judged inside the harness (scale-many with 2^17 developers and more) *)
@@ -246,6 +252,49 @@ and gen_case_replayed id c =
         end
       end) runs
 
+(* A sequence on ONE Detector (round 3): (commits (st exact init how pre (cs ...) [(mailmap ..)]) ...) and
+   (obs (st <observation of a single case>) ... [(late i (dict ..) (rev ..))]).  Every stage is judged exactly like a case
+   of its own on a new Detector: the model is started afresh for every stage (it is the new-instance twin). *)
+and seq_case id c =
+  let stages = args (field "commits" c) in
+  let obs = args (field "obs" c) in
+  let sobs = List.filter (fun x -> tag x = "st") obs in
+  let nst = List.length stages in
+  if List.length sobs <> nst then failwith "sequence: stages and observations differ in number";
+  count "gen_seq_cases";
+  let sub st ob = L ([A "case"; A (string_of_int id); L [A "exact"; List.nth (args st) 0]; L (A "commits" :: args (field "cs" st))]
+                     @ (match field_opt "mailmap" st with Some m -> [m] | None -> [])
+                     @ [L (A "obs" :: args ob)]) in
+  let describe i st =
+    let a = args st in
+    let b k = bool_of_sx (List.nth a k) in
+    Printf.sprintf "stage %d of %d on ONE Detector (%s%s%s%s, %d commits): " (i + 1) nst
+      (if b 0 then "exact" else "opportunistic") (if b 1 then ", Initialize first" else ", no Initialize")
+      (if int_of_sx (List.nth a 2) = 1 then ", dictionaries set to nil + Configure" else ", GeneratePeopleDict")
+      (if b 3 then ", the list consumed once under the old dictionary before" else "")
+      (List.length (args (field "cs" st))) in
+  let finish () = pfx := "" in
+  (try
+    List.iteri (fun i (st, ob) ->
+      count "gen_seq_stages";
+      if i > 0 then count "gen_seq_stages_on_a_used_detector";
+      pfx := describe i st;
+      gen_case_replayed id (sub st ob)) (List.combine stages sobs);
+    (* dictionaries handed out by an earlier stage that changed afterwards: judged again *)
+    List.iter (fun l ->
+      if tag l = "late" then begin
+        let a = args l in
+        let i = int_of_sx (List.nth a 0) in
+        let st = List.nth stages i and ob = List.nth sobs i in
+        count "gen_seq_dictionaries_changed_afterwards";
+        let keep = List.filter (fun x -> tag x <> "dict" && tag x <> "rev") (args ob) in
+        let ob' = L (A "st" :: (keep @ [List.nth a 1; List.nth a 2])) in
+        pfx := describe i st ^ "its dictionaries read AGAIN after the later stages: ";
+        gen_case_replayed id (sub st ob')
+      end) obs
+  with e -> finish (); raise e);
+  finish ()
+
 (* ---------- merges ---------- *)
 type mres = MPanic | MOk of (z list * ((z * z) * z)) list * z list list
 
@@ -349,11 +398,39 @@ let big_merge_case id rd1 rd2 obs =
          if Array.length merged <> Hashtbl.length t then fail "literal: the merged list and the index differ in size"
        end)
 
-let merge_case id c =
+let rec merge_case id c =
   let ids = args (field "ids" c) in
   let pick t = List.rev (List.fold_left (fun acc x -> if tag x = t then zstr (List.hd (args x)) :: acc else acc) [] ids) in
   let rd1 = pick "a" and rd2 = pick "b" in
   let obs = field "obs" c in
+  if field_opt "chain" c = None then merge_judge id rd1 rd2 obs
+  else begin
+    (* chained merges (round 3): (A+B)+C and A+(B+C); every call is judged like a single merge of its two argument lists,
+       the intermediate list being what the first call returned *)
+    let rd3 = pick "c" in
+    count "merge_chain_cases";
+    let merged_of o = match mres_of_sx (field "ident" o) with MOk (_, m) -> Some m | MPanic -> None in
+    let step name a b o =
+      pfx := name;
+      (try merge_judge id a b o with e -> pfx := ""; raise e);
+      pfx := "" in
+    step "A+B of a chained merge: " rd1 rd2 obs;
+    (match field_opt "chl" obs, merged_of obs with
+     | Some o, Some m -> count "merge_chain_steps"; step "(A+B)+C, the second call gets the list the first one returned: " m rd3 o
+     | _ -> ());
+    let bc = field "bc" obs in
+    step "B+C of a chained merge: " rd2 rd3 bc;
+    (match field_opt "chr" obs, merged_of bc with
+     | Some o, Some m -> count "merge_chain_steps"; step "A+(B+C), the second call gets the list the first one returned: " rd1 m o
+     | _ -> ());
+    if not (bool_of_sx (List.hd (args (field "stable" obs)))) then
+      propfail id "chained merges: the index map / merged list returned by an earlier call reads differently after the later calls (results share storage)"
+  end
+and merge_judge id rd1 rd2 obs =
+  (match field_opt "inputs" obs with
+   | Some f when not (bool_of_sx (List.hd (args f))) ->
+       propfail id "merge: the call changed its argument lists (the positions First/Second point into are no longer the caller's)"
+   | _ -> ());
   if List.length rd1 + List.length rd2 > 80 then big_merge_case id rd1 rd2 obs else
   let dom = merge_domb rd1 rd2 in
   count (if dom then "merge_in_domain" else "merge_f7_domain");
